@@ -318,6 +318,18 @@ def _graham(rc: RuleCtx):
     # the scan positions: an index loop over sorted_points or direct iteration over sorted_points[3:]
     from .common import bind_loop
     fr = Frame(ev, fi, 0)
+    # scalar temporaries hoisted in front of the loop (n = len(sorted_points)) are read through
+    for st_ in fi.node.body[:fi.node.body.index(loop)]:
+        if isinstance(st_, ast.Assign) and len(st_.targets) == 1 and isinstance(st_.targets[0], ast.Name) and st_.targets[0].id not in env \
+                and all(n_.id in env or n_.id in ("len", "np", "numpy") for n_ in ast.walk(st_.value) if isinstance(n_, ast.Name)):
+            try:
+                trial = dict(env)
+                fr.stmt(st_, trial, TRUE)
+                v_ = trial.get(st_.targets[0].id)
+                if isinstance(v_, Rat) and not v_.is_array():
+                    env[st_.targets[0].id] = v_
+            except Unsupported:
+                pass
     b = bind_loop(ev, fr, loop, env)
     if b is None:
         raise AnalysisError("graham_scan: scan loop header has no recognised shape")
